@@ -66,6 +66,11 @@ Ends1(r) == IF r.b = r.d.len THEN 1 ELSE 0
 RECURSIVE CountEnds(_)
 CountEnds(rs) == IF rs = <<>> THEN 0 ELSE Ends1(Head(rs)) + CountEnds(Tail(rs))
 
+\* the flow definition again, between two payloads: it is not data, the section being assembled goes on
+TMFd ==
+    /\ IsEv("MFd") /\ pipe = "merge" /\ ~ended /\ Tr[l].r = 0
+    /\ UNCHANGED <<pipe, secs, maxpay, done, off, pdisc, sync, cur, must, out, ended, present, sok, jins, jok>>
+
 TPay ==
     /\ IsEv("Pay") /\ pipe = "merge" /\ ~ended
     /\ LET e == Tr[l] IN
@@ -161,7 +166,7 @@ TJSec ==
 TInit == /\ l = 1 /\ pipe = "none" /\ secs = <<>> /\ maxpay = 0 /\ done = 0 /\ off = 0 /\ pdisc = FALSE
          /\ sync = FALSE /\ cur = 0 /\ must = <<>> /\ out = <<>> /\ ended = FALSE
          /\ present = {} /\ sok = TRUE /\ jins = {} /\ jok = TRUE
-TNext == TReset \/ TPay \/ TEnd \/ TAddOut \/ TDelOut \/ TSSec \/ TJAdd \/ TJDel \/ TJFd \/ TJSec
+TNext == TReset \/ TMFd \/ TPay \/ TEnd \/ TAddOut \/ TDelOut \/ TSSec \/ TJAdd \/ TJDel \/ TJFd \/ TJSec
 TSpec == TInit /\ [][TNext]_vars
 
 (***************************************************************************)
